@@ -1239,6 +1239,51 @@ func c11TargetedStore(r *ev.Run) {
 		r.Count("targeted:remove-vs-flush:"+beside, 1)
 		r.Eval(true, ev.Digest("t3c", beside, ci, errR == nil))
 	})
+	// (iii-d) OBSERVATION ONLY (store.Train is in no property's list of concurrent operations): an Add is held between
+	// choosing the writable memtable and writing to it while store.Train runs beside it (Train renews the writable
+	// memtable, since the per-owner-instance fix). Whether the acknowledged Add is visible afterwards is counted, not judged.
+	r.Cases("observe-add-vs-train", r.Pick(4, 12), func(ci int, rng *rand.Rand) {
+		dir, err := os.MkdirTemp("", "verif-c11t-*")
+		if err != nil {
+			panic(err)
+		}
+		defer os.RemoveAll(dir)
+		p := storeParams{VecKind: "flat", Text: true, Meta: true, Dim: 2, Metric: comet.Euclidean, CompactionThreshold: 1000, MemtableSizeLimit: 1 << 20, FlushThreshold: 1 << 40}
+		s, err := p.open(dir)
+		if err != nil {
+			return
+		}
+		defer s.Close()
+		base := uint32(1<<28 + 1<<24 + ci<<8)
+		for i := 0; i < ci%2; i++ { // an empty or a non-empty writable memtable
+			d := genStoreDoc(rng, p, base+uint32(i), "pre")
+			s.AddWithID(d.ID, d.Vec, d.Text, d.Meta)
+		}
+		var done chan struct{}
+		ctl.setTarget("memq.add.picked", 1, func(args []any) {
+			_, done = runBeside(func() { s.Train([][]float32{{1, 2}, {3, 4}}) }, 2*time.Second)
+		})
+		d := genStoreDoc(rng, p, base+10, "A")
+		errA := s.AddWithID(d.ID, d.Vec, d.Text, d.Meta)
+		fired := ctl.fired()
+		ctl.clearTarget()
+		if !fired || done == nil {
+			return
+		}
+		<-done
+		if errA != nil {
+			r.Count("observed:add-vs-train:add-refused", 1)
+			return
+		}
+		s.Flush()
+		a := searchAllModalities(s, p)
+		if a.Err == nil && a.Text[d.ID] && a.Vec[d.ID] && a.Meta[d.ID] {
+			r.Count("observed:add-vs-train:acknowledged-add-visible", 1)
+		} else {
+			r.Count("observed:add-vs-train:acknowledged-add-LOST(outside every quantifier, not judged)", 1)
+		}
+		r.Eval(true, ev.Digest("t3d", ci))
+	})
 	// (iv) Close while the background compaction worker is between writing the merged segment and swapping it in
 	compactPoints := []string{"compact.begin", "crash:compact.create.hybrid", "crash:compact.written"}
 	r.Cases("targeted-close-vs-compaction", r.Pick(1, 5)*len(compactPoints), func(ci int, rng *rand.Rand) {
